@@ -17,6 +17,7 @@ import weakref
 from dataclasses import dataclass
 
 import anyio
+from guard import guarded_run  # noqa: E402
 import sniffio
 from asphalt.core import Event, Signal, SignalQueueFull, UnboundSignal, stream_events, wait_event
 
@@ -357,7 +358,7 @@ def main():
     res = []
     for case in payload["cases"]:
         try:
-            res.append(anyio.run(run_case, case, backend=case["backend"]))
+            res.append(guarded_run(run_case, case, backend=case["backend"]))
         except BaseException:  # noqa
             import traceback
             res.append({"backend": case["backend"], "seed": case.get("seed"), "steps": [],
